@@ -120,6 +120,10 @@ def apply_weather_xform(df: pd.DataFrame, xf) -> pd.DataFrame:
             n = len(df)
             if kind == "num":
                 col = np.linspace(-5, 1e4, n)
+            elif kind == "num_nan":       # sparse measurements: mostly missing
+                col = np.where(np.arange(n) % 5 == 2, np.nan, np.linspace(0, 30, n))
+            elif kind == "obj_none":      # quality flags, sometimes None
+                col = np.array([None if i % 7 == 3 else "ok" for i in range(n)], dtype=object)
             elif kind == "int":
                 col = np.arange(n) * 7 - 3
             elif kind == "str":
@@ -294,7 +298,15 @@ def build(cfg, weather_df=None):
 
 
 def make_model(cfg, weather_df=None):
-    return AquaCropModel(**build(cfg, weather_df))
+    """Model for a configuration.  cfg['reuse'] = n > 0: the SAME input objects have first been used by n earlier
+    model initialisations (the properties quantify over valid configurations, not over virgin objects)."""
+    kw = build(cfg, weather_df)
+    for _ in range(int(cfg.get("reuse", 0) or 0)):
+        try:
+            AquaCropModel(**kw)._initialize()
+        except Exception:
+            break
+    return AquaCropModel(**kw)
 
 
 def clone(cfg):
